@@ -488,6 +488,199 @@ theorem newIdeal_par {gens : List (UPoly α)} (hg : AllVV V gens) :
       simp only [Option.map_some, e2, true_and]
       intro v h; cases h; exact hv2
 
+
+/-! ### ring level: `reduceIn ofCoefs ofNats ofInts times pow` -/
+
+/-- the ring `R` with the coefficient record replaced -/
+def withF (R : UPoly.Ring α) (G : FOps α) : UPoly.Ring α := { R with F := G }
+
+/-- the ring is over `F` and its modulus has valid coefficients -/
+structure RingOK (F : FOps α) (V : α → Prop) (R : UPoly.Ring α) : Prop where
+  hF : R.F = F
+  hm : ∀ m, R.modulus = some m → AllV V m
+
+theorem reduceIn_par {R : UPoly.Ring α} (hR : RingOK F V R) {f : UPoly α} (hf : AllV V f) :
+    reduceIn (withF R F') f = reduceIn R f ∧ OptV V (reduceIn R f) := by
+  unfold reduceIn withF
+  cases hmod : R.modulus with
+  | none => exact ⟨rfl, fun _ h => by cases h; exact hf⟩
+  | some g =>
+    simp only [hR.hF]
+    exact reduce_par hA hC (hR.hm g hmod) hf
+
+theorem ofCoefs_par {R : UPoly.Ring α} (hR : RingOK F V R) {cs : List α} (hcs : AllV V cs) :
+    ofCoefs (withF R F') cs = ofCoefs R cs ∧ OptV V (ofCoefs R cs) := by
+  unfold ofCoefs
+  have hF' : (withF R F').F = F' := rfl
+  rw [hF', hR.hF, zero_congr hA, hA.isZero]
+  obtain ⟨e, hv⟩ := foldCoefs_par (V := V) (AllV V)
+    (fun acc d c => if F.isZero c then acc else setCoef F acc d c)
+    (fun acc d c => if F.isZero c then acc else setCoef F' acc d c)
+    (fun acc d c hacc hc => by
+      split
+      · exact ⟨rfl, hacc⟩
+      · exact setCoef_par hA hC hacc d hc) cs (UPoly.zero F) hcs (zero_V hC)
+  rw [e]
+  exact reduceIn_par hA hC hR hv
+
+theorem times_par {R : UPoly.Ring α} (hR : RingOK F V R) {f g : UPoly α} (hf : AllV V f)
+    (hg : AllV V g) :
+    times (withF R F') f g = times R f g ∧ OptV V (times R f g) := by
+  unfold times
+  have hF' : (withF R F').F = F' := rfl
+  rw [hF', hR.hF]
+  obtain ⟨e, hv⟩ := mulNoReduce_par hA hC hf hg
+  rw [e]
+  exact reduceIn_par hA hC hR hv
+
+theorem upowLoop_par {R : UPoly.Ring α} (hR : RingOK F V R) :
+    ∀ (fuel n : Nat) (out g : UPoly α), AllV V out → AllV V g →
+      UPoly.powLoop (withF R F') fuel n out g = UPoly.powLoop R fuel n out g ∧
+      OptV V (UPoly.powLoop R fuel n out g) := by
+  intro fuel
+  induction fuel with
+  | zero => intro n out g _ _; exact ⟨rfl, fun _ h => by cases h⟩
+  | succ fuel ih =>
+    intro n out g ho hg
+    rw [UPoly.powLoop, UPoly.powLoop]
+    split
+    · exact ⟨rfl, fun _ h => by cases h; exact ho⟩
+    · obtain ⟨e1, hv1⟩ := times_par hA hC hR ho hg
+      obtain ⟨e2, hv2⟩ := times_par hA hC hR hg hg
+      simp only [e1, e2]
+      have ho' : OptV V (if n % 2 = 1 then times R out g else some out) := by
+        split
+        · exact hv1
+        · exact fun _ h => by cases h; exact ho
+      cases h1 : (if n % 2 = 1 then times R out g else some out) with
+      | none => exact ⟨rfl, fun _ h => by cases h⟩
+      | some o =>
+        cases h2 : times R g g with
+        | none => exact ⟨rfl, fun _ h => by cases h⟩
+        | some g2 => exact ih _ _ _ (ho' o h1) (hv2 g2 h2)
+
+theorem upow_par {R : UPoly.Ring α} (hR : RingOK F V R) {f : UPoly α} (hf : AllV V f) (n : Nat) :
+    UPoly.pow (withF R F') f n = UPoly.pow R f n ∧ OptV V (UPoly.pow R f n) := by
+  unfold UPoly.pow
+  have hF' : (withF R F').F = F' := rfl
+  obtain ⟨e, hv⟩ := ofCoefs_par hA hC hR (cs := [F.one]) (AllV.single hC.one)
+  rw [hF', hA.one, hR.hF, e]
+  cases h : ofCoefs R [F.one] with
+  | none => exact ⟨rfl, fun _ h => by cases h⟩
+  | some o => exact upowLoop_par hA hC hR 70 n o f (hv o h) hf
+
+theorem ofNats_par {R : UPoly.Ring α} (hR : RingOK F V R) (hn : ∀ k, V (F.ofNat k)) (cs : List Nat) :
+    ofNats (withF R F') cs = ofNats R cs ∧ OptV V (ofNats R cs) := by
+  unfold ofNats
+  have hF' : (withF R F').F = F' := rfl
+  rw [hF', hA.ofNat, hR.hF]
+  refine ofCoefs_par hA hC hR ?_
+  intro c hc
+  obtain ⟨k, _, rfl⟩ := List.mem_map.1 hc
+  exact hn k
+
+theorem ofInts_par {R : UPoly.Ring α} (hR : RingOK F V R) (hn : ∀ z, V (F.ofInt z)) (cs : List Int) :
+    ofInts (withF R F') cs = ofInts R cs ∧ OptV V (ofInts R cs) := by
+  unfold ofInts
+  have hF' : (withF R F').F = F' := rfl
+  rw [hF', hA.ofInt, hR.hF]
+  refine ofCoefs_par hA hC hR ?_
+  intro c hc
+  obtain ⟨k, _, rfl⟩ := List.mem_map.1 hc
+  exact hn k
+
+/-! ### interpolation -/
+
+theorem coefK_par (h1 : V (F.ofNat 1)) {points : List α} (hp : AllV V points) (ignore k : Nat) :
+    coefK F' points ignore k = coefK F points ignore k ∧ V (coefK F points ignore k) := by
+  unfold coefK
+  rw [hA.zero, hA.ofNat]
+  obtain ⟨e, hv⟩ := foldl_par V (fun _ : List Nat => True)
+    (fun out combo => if combo.contains ignore then out
+      else F.add out (combo.foldl (fun t i => F.mul t (points.getD i F.zero)) (F.ofNat 1)))
+    (fun out combo => if combo.contains ignore then out
+      else F'.add out (combo.foldl (fun t i => F'.mul t (points.getD i F.zero)) (F.ofNat 1)))
+    (fun out combo ho _ => by
+      split
+      · exact ⟨rfl, ho⟩
+      · obtain ⟨e, hv⟩ := foldl_par V (fun _ : Nat => True)
+          (fun t i => F.mul t (points.getD i F.zero)) (fun t i => F'.mul t (points.getD i F.zero))
+          (fun t i ht _ => ⟨hA.mul _ _ ht (hp.getD hC.zero i), hC.mul _ _ ht (hp.getD hC.zero i)⟩)
+          combo (F.ofNat 1) (fun _ _ => trivial) h1
+        rw [e, hA.add _ _ ho hv]
+        exact ⟨rfl, hC.add _ _ ho hv⟩)
+    (Auxmath.combinations points.length (points.length - 1 - k)) F.zero (fun _ _ => trivial) hC.zero
+  simp only [e]
+  split
+  · exact ⟨hA.neg _ hv, hC.neg _ hv⟩
+  · exact ⟨rfl, hv⟩
+
+omit hC in
+theorem ignoreIndex_congr (points : List α) (ignore : α) :
+    ignoreIndex F' points ignore = ignoreIndex F points ignore := by
+  unfold ignoreIndex; rw [hA.beq]
+
+omit hC in
+theorem allDistinct_congr (points : List α) : allDistinct F' points = allDistinct F points := by
+  unfold allDistinct; rw [hA.toStr]
+
+theorem lagrangeBasis_par (h1 : V (F.ofNat 1)) {points : List α} (hp : AllV V points) {ignore : α}
+    (hi : V ignore) :
+    lagrangeBasis F' points ignore = lagrangeBasis F points ignore ∧
+      AllV V (lagrangeBasis F points ignore) := by
+  unfold lagrangeBasis
+  rw [ignoreIndex_congr hA, zero_congr hA, hA.one, hA.zero]
+  obtain ⟨e1, hv1⟩ := foldl_par (AllV V) (fun _ : Nat => True)
+    (fun f k => setCoef F f k (coefK F points (ignoreIndex F points ignore) k))
+    (fun f k => setCoef F' f k (coefK F' points (ignoreIndex F points ignore) k))
+    (fun f k hf _ => by
+      obtain ⟨e, hv⟩ := coefK_par hA hC h1 hp (ignoreIndex F points ignore) k
+      rw [e]
+      exact setCoef_par hA hC hf k hv)
+    (List.range points.length) (UPoly.zero F) (fun _ _ => trivial) (zero_V hC)
+  obtain ⟨e2, hv2⟩ := foldl_par V (fun x : α × Nat => V x.1)
+    (fun d (x : α × Nat) => if x.2 = ignoreIndex F points ignore then d else F.mul d (F.sub ignore x.1))
+    (fun d (x : α × Nat) => if x.2 = ignoreIndex F points ignore then d else F'.mul d (F'.sub ignore x.1))
+    (fun d x hd hx => by
+      split
+      · exact ⟨rfl, hd⟩
+      · rw [hA.sub _ _ hi hx, hA.mul _ _ hd (hC.sub _ _ hi hx)]
+        exact ⟨rfl, hC.mul _ _ hd (hC.sub _ _ hi hx)⟩)
+    points.zipIdx F.one (fun x hx => hp _ (List.fst_mem_of_mem_zipIdx hx)) hC.one
+  simp only [] at e1 e2 ⊢
+  rw [e1, e2, hA.inv _ hv2]
+  cases hinv : F.inv _ with
+  | none => exact scale_par hA hC hv1 hC.zero
+  | some i => exact scale_par hA hC hv1 (hC.inv _ i hv2 hinv)
+
+theorem interpolate_par (h1 : V (F.ofNat 1)) {points values : List α} (hp : AllV V points)
+    (hvals : AllV V values) :
+    interpolate F' points values = interpolate F points values ∧
+      ∀ v, interpolate F points values = .ok v → AllV V v := by
+  unfold interpolate
+  rw [allDistinct_congr hA, zero_congr hA, hA.isZero]
+  split
+  · exact ⟨rfl, fun _ h => by cases h⟩
+  · split
+    · exact ⟨rfl, fun _ h => by cases h⟩
+    · obtain ⟨e, hv⟩ := foldl_par (AllV V) (fun x : α × α => V x.1 ∧ V x.2)
+        (fun f (x : α × α) => if F.isZero x.2 then f
+          else add F f (scale F (lagrangeBasis F points x.1) x.2))
+        (fun f (x : α × α) => if F.isZero x.2 then f
+          else add F' f (scale F' (lagrangeBasis F' points x.1) x.2))
+        (fun f x hf hx => by
+          split
+          · exact ⟨rfl, hf⟩
+          · obtain ⟨e1, hv1⟩ := lagrangeBasis_par hA hC h1 hp hx.1
+            obtain ⟨e2, hv2⟩ := scale_par hA hC hv1 hx.2
+            rw [e1, e2]
+            exact add_par hA hC hf hv2)
+        (points.zip values) (UPoly.zero F)
+        (fun x hx => ⟨hp _ (List.of_mem_zip hx).1, hvals _ (List.of_mem_zip hx).2⟩) (zero_V hC)
+      simp only [] at e ⊢
+      rw [e]
+      exact ⟨rfl, fun v h => by cases h; exact hv⟩
+
 end Par
 end Tables
 end Algobra
